@@ -174,7 +174,9 @@ func c15Init() {
 			c15Cases = append(c15Cases, &C15Case{Path: "file", Where: ps.desc, Config: b, Original: ps.orig})
 			// the original value kept as a prefix (a checker that only looks at
 			// the first token, or at a parsed part, lets the rest through)
-			vars := []string{ps.orig + " " + c15Marker, ps.orig + c15Marker}
+			vars := []string{ps.orig + " " + c15Marker, ps.orig + c15Marker, ps.orig + "é" + c15Marker, "é" + c15Marker,
+				// one metacharacter, directly after a letter outside ASCII or after a digit
+				ps.orig + "é'MRK", "表;MRK", ps.orig + "é MRK", ps.orig + "٣)MRK", ps.orig + "1'MRK", "é\"é;é é)MRK"}
 			if strings.Contains(ps.desc, ".table.index.") || strings.Contains(ps.desc, ".table.unique.") {
 				vars = append(vars, ps.orig+" desc "+c15Marker, ps.orig+" asc) ; "+c15Marker)
 			}
